@@ -703,6 +703,30 @@ func (s *ColumnNameRewriteVisitor) Leave(n ast.Node) (node ast.Node, ok bool) {
 	return n, true
 }
 
+// exprColumnNameRewriteVisitor is the ColumnNameRewriteVisitor for an expression of the statement itself:
+// the columns of a sub query belong to the tables of that sub query and are left alone.
+type exprColumnNameRewriteVisitor struct {
+	*ColumnNameRewriteVisitor
+}
+
+// Enter implement ast.Visitor
+func (s *exprColumnNameRewriteVisitor) Enter(n ast.Node) (node ast.Node, skipChildren bool) {
+	_, isSubquery := n.(*ast.SubqueryExpr)
+	return n, isSubquery
+}
+
+// rewriteColumnNamesInExpr decorates the column names below an expression that takes no part in routing.
+// The visitor can report a column it cannot look up only by a panic, which is returned as an error.
+func rewriteColumnNamesInExpr(p *TableAliasStmtInfo, expr ast.ExprNode) (ret ast.ExprNode, err error) {
+	defer func() {
+		if e := recover(); e != nil {
+			err = fmt.Errorf("%v", e)
+		}
+	}()
+	node, _ := expr.Accept(&exprColumnNameRewriteVisitor{NewColumnNameRewriteVisitor(p)})
+	return node.(ast.ExprNode), nil
+}
+
 func handleFieldList(p *SelectPlan, stmt *ast.SelectStmt) (err error) {
 	defer func() {
 		if e := recover(); e != nil {
@@ -882,6 +906,23 @@ func handleBinaryOperationExprMathCompare(p *TableAliasStmtInfo, expr *ast.Binar
 
 	if lType == ColumnNameExpr && rType == ColumnNameExpr {
 		return handleBinaryOperationExprCompareLeftColumnRightColumn(p, expr)
+	}
+
+	// an operand that is neither a column nor a value (function call, arithmetic, ...) takes no part in
+	// routing, but the column names below it are rewritten like everywhere else
+	if lType != ColumnNameExpr && lType != ValueExpr {
+		l, err := rewriteColumnNamesInExpr(p, expr.L)
+		if err != nil {
+			return false, nil, nil, fmt.Errorf("rewrite column names in BinaryOperationExpr.L error: %v", err)
+		}
+		expr.L = l
+	}
+	if rType != ColumnNameExpr && rType != ValueExpr {
+		r, err := rewriteColumnNamesInExpr(p, expr.R)
+		if err != nil {
+			return false, nil, nil, fmt.Errorf("rewrite column names in BinaryOperationExpr.R error: %v", err)
+		}
+		expr.R = r
 	}
 
 	if lType == ColumnNameExpr {
